@@ -104,32 +104,44 @@ Definition opkind (c : kcase) : N :=
   end.
 
 (* C18's statement about the stored document, evaluated on the observation alone (given the configuration and the event) *)
+Definition id_ok (c : kcase) (ms : list (bytes * jv)) : bool :=
+  match mget s_id ms with
+  | Some (JStr i) => nonempty i && match y_id (k_payload c) with Some want => beqb i (sanitize want) | None => true end
+  | _ => false
+  end.
+Definition time_is_str (ms : list (bytes * jv)) : bool := match mget s_time ms with Some (JStr _) => true | _ => false end.
+Definition data_ok (c : kcase) (ms : list (bytes * jv)) : bool :=
+  match y_data (k_payload c), mget s_data ms with
+  | DVal v, Some v' => jv_eqb v' (jimage v)
+  | DAbsent, None => true
+  | _, _ => false
+  end.
+Definition src_of (k : kcfg) : bytes := match k_source k with Some s => s | None => [] end.
+Definition schema_of (k : kcfg) : bytes := match k_schema k with Some s => s | None => [] end.
 Definition fields_ok (k : kcfg) (c : kcase) (ms : list (bytes * jv)) : bool :=
-  (match mget s_id ms with
-   | Some (JStr i) => nonempty i && match y_id (k_payload c) with Some want => beqb i (sanitize want) | None => true end
-   | _ => false end)
-  && is_str (mget s_source ms) (sanitize (match k_source k with Some s => s | None => [] end))
+  id_ok c ms
+  && is_str (mget s_source ms) (sanitize (src_of k))
   && is_str (mget s_specversion ms) v_spec
   && is_str (mget s_type ms) (sanitize (k_type c))
-  && (match mget s_time ms with Some (JStr _) => true | _ => false end)
+  && time_is_str ms
   && is_str (mget s_datacontenttype ms) (ctype (k_format k))
-  && str_or_absent (mget s_dataschema ms) (sanitize (match k_schema k with Some s => s | None => [] end))
-  && (match y_data (k_payload c), mget s_data ms with
-      | DVal v, Some v' => jv_eqb v' (jimage v)
-      | DAbsent, None => true
-      | _, _ => false end).
+  && str_or_absent (mget s_dataschema ms) (sanitize (schema_of k))
+  && data_ok c ms.
 
 Definition drop_sig (ms : list (bytes * jv)) : list (bytes * jv) :=
   List.filter (fun kv => negb (beqb (fst kv) s_serialized || beqb (fst kv) s_serialized_hmac)) ms.
+(* must this event be signed: a signer is configured and the type is listed *)
+Definition signs (k : kcfg) (c : kcase) : bool := negb (k_signer k =? 0) && existsb (beqb (k_type c)) (k_types k).
+Definition hmac_expected (k : kcfg) (u : bytes) : bytes :=
+  sanitize (if (k_signer k =? 1) || (k_signer k =? 4) then sig_fn (k_tag k) u else []).
 Definition ser_ok (k : kcfg) (c : kcase) (ms : list (bytes * jv)) (calls : list bytes) : bool :=
-  let signs := negb (k_signer k =? 0) && existsb (beqb (k_type c)) (k_types k) in
-  if signs then
+  if signs k c then
     match mget s_serialized ms, calls with
     | Some (JStr s), [u] =>
         (* serialized decodes to the bytes the signer was given ... *)
         (match Base64.decode s with Some u' => beqb u' u | None => false end)
         (* ... serialized_hmac is the signer's result on them ... *)
-        && str_or_absent (mget s_serialized_hmac ms) (sanitize (if (k_signer k =? 1) || (k_signer k =? 4) then sig_fn (k_tag k) u else []))
+        && str_or_absent (mget s_serialized_hmac ms) (hmac_expected k u)
         (* ... and they are the unsigned document: the stored one without the two signature members *)
         && (match parse_doc u with Some (JObj us) => jv_eqb (JObj us) (JObj (drop_sig ms)) | _ => false end)
     | _, _ => false
@@ -170,29 +182,43 @@ Definition doc_checks (k : kcfg) (c : kcase) (calls : list bytes) (time_ok : boo
   | None => [KParse]
   end.
 
+(* ---- the checks of one Process case, one named function per observable (RunCloudEventsSound.v gives each its meaning) ---- *)
+Definition ce_key (c : kcase) : N := fmt_key (k_format (k_cfg c)).
+Definition ce_table (e' : option (event kpayload)) : table := match e' with Some ev => ev_fmt ev | None => [] end.
+Definition ce_chk_model (c : kcase) : list kind :=
+  match y_data (k_payload c) with DVal v => if wfb v then [] else [KModel] | _ => [] end.
+Definition ce_chk_err (oc : outcome) (o : cobs) : list kind := if Bool.eqb (is_err oc) (b_err o) then [] else [KErr].
+Definition ce_chk_out (oc : outcome) (o : cobs) : list kind := if b_out o =? out_code oc then [] else [KFwd].
+Definition ce_chk_doc (key : N) (mt : table) (o : cobs) : list kind :=
+  if obeqb (tget key mt) (tget key (b_table o)) then [] else [KDoc].
+Definition ce_chk_other (key : N) (mt : table) (o : cobs) : list kind :=
+  if table_eqb (tsort (other_than key mt)) (other_than key (b_table o)) then [] else [KOther].
+Definition ce_chk_frame (o : cobs) : list kind := if b_frame o then [] else [KFrame].
+Definition ce_chk_calls (calls : list bytes) (o : cobs) : list kind := if list_beqb calls (b_calls o) then [] else [KSignIn].
+(* observation-only: whenever the node reports success, what is stored must be the document the property describes *)
+Definition ce_chk_stored (c : kcase) : list kind :=
+  let o := k_obs c in
+  if negb (b_err o) then doc_checks (k_cfg c) c (b_calls o) (b_time_ok o) (tget (ce_key c) (b_table o)) else [].
+(* observation-only: an error other than the predicate's leaves the format table exactly as it was — in particular an event
+   whose signing failed does not carry the unsigned document *)
+Definition ce_chk_errstored (c : kcase) : list kind :=
+  let o := k_obs c in
+  if b_err o && negb (b_pred_err o) then (if table_eqb (k_pre c) (b_table o) then [] else [KErrStored]) else [].
+(* observation-only: the stored document is still the same when re-read after later Process calls on other events; if it is
+   not, the oracle is run again on what is there now *)
+Definition ce_final_of (c : kcase) : option bytes :=
+  match b_final (k_obs c) with None => tget (ce_key c) (b_table (k_obs c)) | Some x => x end.
+Definition ce_chk_final (c : kcase) : list kind :=
+  let o := k_obs c in
+  if obeqb (tget (ce_key c) (b_table o)) (ce_final_of c) then []
+  else KStoredMutated :: (if negb (b_err o) then doc_checks (k_cfg c) c (b_calls o) true (ce_final_of c) else []).
+
 Definition run_ce (c : kcase) : list kind :=
   let '(e', oc, calls) := model_ce c in
   let o := k_obs c in
-  let k := k_cfg c in
-  let key := fmt_key (k_format k) in
-  let mt := match e' with Some ev => ev_fmt ev | None => [] end in
-  (match y_data (k_payload c) with DVal v => if wfb v then [] else [KModel] | _ => [] end) ++
-  (if Bool.eqb (match oc with OErr => true | _ => false end) (b_err o) then [] else [KErr]) ++
-  (if b_out o =? (match oc with OFwd => 1 | _ => 0 end) then [] else [KFwd]) ++
-  (if obeqb (tget key mt) (tget key (b_table o)) then [] else [KDoc]) ++
-  (if table_eqb (tsort (other_than key mt)) (other_than key (b_table o)) then [] else [KOther]) ++
-  (if b_frame o then [] else [KFrame]) ++
-  (if list_beqb calls (b_calls o) then [] else [KSignIn]) ++
-  (* observation-only: whenever the node reports success, what is stored must be the document the property describes *)
-  (if negb (b_err o) then doc_checks k c (b_calls o) (b_time_ok o) (tget key (b_table o)) else []) ++
-  (* observation-only: an error other than the predicate's leaves the format table exactly as it was — in particular an event
-     whose signing failed does not carry the unsigned document *)
-  (if b_err o && negb (b_pred_err o) then (if table_eqb (k_pre c) (b_table o) then [] else [KErrStored]) else []) ++
-  (* observation-only: the stored document is still the same when re-read after later Process calls on other events; if it
-     is not, the oracle is run again on what is there now *)
-  (let final := match b_final o with None => tget key (b_table o) | Some x => x end in
-   if obeqb (tget key (b_table o)) final then []
-   else KStoredMutated :: (if negb (b_err o) then doc_checks k c (b_calls o) true final else [])).
+  ce_chk_model c ++ ce_chk_err oc o ++ ce_chk_out oc o ++ ce_chk_doc (ce_key c) (ce_table e') o ++
+  ce_chk_other (ce_key c) (ce_table e') o ++ ce_chk_frame o ++ ce_chk_calls calls o ++
+  ce_chk_stored c ++ ce_chk_errstored c ++ ce_chk_final c.
 
 Definition set_cfg (c : kcase) (k : kcfg) : kcase :=
   {| k_cfg := k; k_ctx_done := k_ctx_done c; k_evnil := k_evnil c; k_type := k_type c; k_time := k_time c; k_payload := k_payload c; k_pre := k_pre c;
@@ -217,6 +243,6 @@ Definition run_case (c : ccase) : list (N * (N * N * kind)) :=
   | CCe id k => map (fun x => (id, (match x with KStoredMutated => b_later (k_obs k) | _ => 0 end, opkind k, x))) (run_ce k)
   | CFresh id ids => if forallb nonempty ids && nodupb ids then [] else [(id, (0, 4, KFresh))]
   | CConc id n dups panics =>
-      match dups with [] => if panics =? 0 then [] else [(id, (0, 5, KFresh))] | _ => [(id, (0, 5, KFresh))] end
+      if (match dups with [] => true | _ => false end) && (panics =? 0) then [] else [(id, (0, 5, KFresh))]
   end.
 Definition mismatches (cs : list ccase) : list (N * (N * N * kind)) := flat_map run_case cs.
